@@ -45,6 +45,9 @@ FILES = [
     "work/B_evil/evil.bin", "work/B_evil/data.bin", "work/B_evil/sub/inner.bin",
     "outside/secret.bin", "outside/secret2.bin", "outside/secret_hl.bin", "outside/secret_hl2.bin",
     "outside/data.bin", "outside/sub/s.bin",
+    # decoys: same names as data files of work/B and work/B/sub, in directories that a lexically
+    # collapsed "<symlink>/.." model path would wrongly take for the model directory
+    "work/B_evil/inner.bin", "work/B_evil/other.bin", "outside/inner.bin", "outside/other.bin",
 ]
 HARDLINKS = [  # (existing, new name)
     ("work/B/hl_inside_a.bin", "work/B/sub/hl_inside_b.bin"),  # hard-linked inside file
@@ -76,6 +79,13 @@ SYMLINKS = [  # (link path, target text); "$R" is replaced by the sandbox root
     ("work/Blink", "B"),
     ("work/Blink_evil", "B_evil"),
     ("outside/ln_back", "../work/B"),
+    # directory symlinks living in decoy directories and pointing at a *child* of a model directory
+    ("work/B_evil/ln_to_Bsub", "../B/sub"), ("work/B_evil/ln_to_deep", "../B/sub/deep"),
+    ("outside/ln_to_Bsub", "../work/B/sub"), ("outside/ln_to_deep", "../work/B/sub/deep"),
+    # symlinked model files (dangling until a load case writes the model)
+    ("work/B/ln_m.onnx", "m.onnx"), ("work/B/ln_m.textproto", "m.textproto"),
+    ("work/B/sub/ln_m.onnx", "m.onnx"), ("work/B/sub/ln_m.textproto", "m.textproto"),
+    ("outside/ln_m_B.onnx", "../work/B/m.onnx"), ("outside/ln_m_sub.onnx", "../work/B/sub/m.onnx"),
 ]
 BASE_TARGETS = ("work/B", "work/B/sub")
 
@@ -480,7 +490,7 @@ def _walk(rng, start_abs: str, max_steps: int, root: str = "") -> list[str]:
     cur = start_abs
     for _ in range(max_steps):
         try:
-            entries = sorted(n for n in os.listdir(cur) if n not in MODEL_NAMES and not n.startswith(".m"))
+            entries = sorted(n for n in os.listdir(cur) if not n.startswith(("m.", "ln_m", ".m")))
         except (OSError, ValueError):
             entries = []
         r = rng.random()
@@ -619,7 +629,49 @@ def load_spellings(target: str, fname: str) -> list[tuple[str, str, str, bool]]:
         ("via-symlink-rel", "work", f"{viasym[len('work/'):]}/{fname}", True),
         ("trailing-components", target, f"{fname}/", False),
         ("trailing-components", target, f"{fname}/.", False),
+    ] + _symlink_load_spellings(target, fname)
+
+
+def _symlink_load_spellings(target: str, fname: str) -> list[tuple[str, str, str, bool]]:
+    """Model paths with "<symlink-to-directory>/.." components (the OS follows the link before
+    going up, a lexical normalisation does not), symlinked model files."""
+    parent, name = os.path.split(target)
+    is_b = target == "work/B"
+    ln = "ln_to_Bsub" if is_b else "ln_to_deep"  # -> a child directory of the model directory
+    D = "symlink-dir-dotdot"
+    out = [
+        (D, "work/B_evil", f"{ln}/../{fname}", True),  # at the start
+        (D, "outside", f"{ln}/../{fname}", True),
+        (D, "work/B_evil", f"./{ln}//.././{fname}", True),
+        (D, "work", f"B_evil/{ln}/../{fname}", True),  # in the middle
+        (D, "", f"outside/{ln}/../{fname}", True),
+        (D, "work", f".//B_evil//{ln}/.././/{fname}", True),
+        (D, "outside", f"$R/work/B_evil/{ln}/../{fname}", True),  # absolute
+        (D, "work", f"$R/outside/./{ln}/..//{fname}", True),
+        (D, "work", f"B/ln_out_dir/../{target}/{fname}", True),  # link -> outside, ".." -> $R
+        (D, "outside", f"ln_back/../{target[len('work/'):]}/{fname}", True),  # link -> work/B, ".." -> work
     ]
+    if is_b:
+        out += [
+            (D, "work", f"B_evil/{ln}/../ln_in_dir/../{fname}", True),  # several
+            (D, "work", f"B_evil/{ln}/../sub/ln_sib_dir/../{fname}", True),
+            (D + "-harmless", "work", f"Blink/../B/{fname}", True),
+            (D + "-harmless", "work", f"B/ln_in_dir/../{fname}", True),
+        ]
+    else:
+        out += [
+            (D, "work", f"B_evil/{ln}/../ln_sib_dir/../sub/{fname}", True),  # collapses to B_evil/sub
+            (D, "work", f"B_evil/{ln}/../../ln_in_dir/{fname}", True),
+            (D + "-harmless", "work", f"B/ln_in_dir/deep/../{fname}", True),
+            (D + "-harmless", "work", f"B/ln_self/sub/{fname}", True),
+        ]
+    out.append(("symlinked-model-file", parent, f"{name}/ln_{fname}", True))
+    out.append(("symlinked-model-file", target, f"ln_{fname}", True))
+    if fname == "m.onnx":
+        # a symlink to the model in another directory: which directory is "the model's" is a
+        # convention question (path as given vs. file opened) -> not judged
+        out.append(("symlinked-model-file-other-dir", "", f"outside/ln_m_{'B' if is_b else 'sub'}.onnx", False))
+    return out
 
 
 def gen_tensor_params(rng) -> dict:
